@@ -26,3 +26,42 @@ def stored_query(prop, n, avail_out, valid_only, core=False, witness=False, time
         p["timeout"] = timeout
     fam = "stored_valid" if valid_only else "stored_arbitrary"
     return Query("%s/n%d_ao%d" % (fam, n, avail_out), R, p, core=core, family=fam, weight=1 + n)
+
+
+def fixed_query(prop, n, avail_out, valid_only, core=False, witness=False, timeout=None, mem_gb=None):
+    """C02(b)/C06(b): decode_huffman_code_block_stateless_base with the in-tree static tables on n arbitrary bytes."""
+    hdef = ["N=%d" % n, "AVAIL_OUT=%d" % avail_out] + (["VALID_ONLY"] if valid_only else [])
+    syms = 8 * n // 7 + 3           # shortest code is 7 bits; +1 for the attempt that runs out of input
+    syms2 = 8 * (n + 2) // 7 + 3    # reference run on the 2-byte continuation
+    cp = max(8, avail_out) + 1
+    p = dict(harness="harness/C02/h_fixed.c", units=["igzip/hufftables_c.c"], defines=FAST, hdefines=hdef,
+             unwind=max(9, n + 3),
+             unwindset=["decode_huffman_code_block_stateless_base.0:%d" % syms,
+                        "decode_huffman_code_block_stateless_base.1:3", "byte_copy.0:%d" % (avail_out + 2),
+                        "rfc_codes.0:%d" % syms2, "rfc_codes.1:%d" % (avail_out + 3), "rfc_bits.0:17",
+                        "rfc_code_bits.0:9", "inflate_in_load.0:9", "memcpy.0:%d" % cp,
+                        ] + ["harness.%d:%d" % (k, max(9, avail_out + 2, n + 1)) for k in range(6)],
+             flags=["--slice-formula"], witness=witness)
+    if timeout:
+        p["timeout"] = timeout
+    if mem_gb:
+        p["mem_gb"] = mem_gb
+    fam = "fixed_valid" if valid_only else "fixed_arbitrary"
+    return Query("%s/n%d_ao%d" % (fam, n, avail_out), R, p, core=core, family=fam, weight=10 * 4 ** n)
+
+
+def setcodes_query(nsym, core=False, witness=False):
+    p = dict(harness="harness/C02/h_setcodes.c", units=["igzip/hufftables_c.c"], defines=FAST, hdefines=["NSYM=%d" % nsym],
+             unwind=max(17, nsym + 2), witness=witness)
+    return Query("set_codes/nsym%d" % nsym, R, p, core=core, family="set_codes", weight=nsym)
+
+
+def dynprefix_query(core=True):
+    p = dict(harness="harness/C02/h_setcodes.c", units=["igzip/hufftables_c.c"], defines=FAST, hdefines=["H_DYNPREFIX"],
+             remove=["make_inflate_huff_code_lit_len", "make_inflate_huff_code_dist", "make_inflate_huff_code_header",
+                     "set_and_expand_lit_len_huffcode", "setup_static_header", "decode_next_header"],
+             unwind=2, unwindset=["setup_dynamic_header.0:5", "setup_dynamic_header.1:20", "inflate_in_load.0:9",
+                                  "rfc_bits.0:17", "rfc_dynamic.0:20", "rfc_dynamic.1:20", "rfc1951_inflate.0:2",
+                                  "set_codes.0:17", "set_codes.1:20"],
+             witness=True)
+    return Query("dyn_header_prefix/n3", R, p, core=core, family="dyn_header_prefix", weight=3)
